@@ -233,7 +233,41 @@ theorem sound_readData (v : Variant) {d0 d : Daemon} (hs : Steps d0 d) (i : Id) 
     · refine ⟨?_, evOk_nil d0⟩
       refine Steps.trans s2 ?_
       exact steps_set_same _ i _ rfl rfl rfl (fun h => h)
-  · exact ⟨s2, evOk_nil d0⟩
+  · split
+    · refine ⟨?_, evOk_nil d0⟩
+      refine Steps.trans s2 ?_
+      exact steps_set_same _ i _ rfl rfl rfl (fun h => h)
+    · exact ⟨s2, evOk_nil d0⟩
+
+theorem mem_ite_nil {α : Type} {p : Prop} [Decidable p] {x e : α} (h : e ∈ (if p then [] else [x])) : e = x := by
+  by_cases hp : p
+  · rw [if_pos hp] at h; exact absurd h List.not_mem_nil
+  · rw [if_neg hp] at h; exact List.mem_singleton.1 h
+
+theorem writeStep_events (v : Variant) (d : Daemon) (i : Id) :
+    ∀ e, e ∈ (writeStep v d i).2 → e = Event.completed i := by
+  intro e he
+  unfold writeStep at he
+  dsimp only at he
+  by_cases hf : i ∈ d.fset
+  · simp only [hf, if_true] at he
+    exact mem_ite_nil he
+  · simp only [hf, if_false] at he
+    exact absurd he List.not_mem_nil
+
+theorem sound_writeStep (v : Variant) {d0 d : Daemon} (hs : Steps d0 d) (i : Id) : Sound d0 (writeStep v d i) := by
+  obtain ⟨d1, h1, h2⟩ := writeStep_cases v d i
+  have s1 : Steps d0 d1 := by
+    rcases h1 with e | e <;> rw [e]
+    · exact hs
+    · exact Steps.trans hs (steps_updateLastActivity v d i)
+  refine ⟨?_, ?_⟩
+  · rcases h2 with e | e <;> rw [e]
+    · exact s1
+    · exact Steps.trans s1 (steps_set_same d1 i _ rfl rfl rfl (fun h => h))
+  · intro j a hm
+    have := writeStep_events v d i _ hm
+    cases this
 
 theorem sound_closeOther {d0 d : Daemon} (hs : Steps d0 d) (i : Id) (code : Nat) : Sound d0 (closeOther d i code) := by
   unfold closeOther
@@ -258,10 +292,16 @@ theorem sound_callHandlersSel (v : Variant) {d0 d : Daemon} (hs : Steps d0 d) (i
   split
   · exact sound_handleIdle hs i
   · split
-    · exact sound_seq2 (sound_readData v hs i) (fun d' h' => sound_handleIdle h' i)
+    · exact sound_seq2 (sound_writeStep v hs i) (fun d' h' => sound_handleIdle h' i)
     · split
-      · exact sound_seq2 (sound_closeOther hs i _) (fun d' h' => sound_handleIdle h' i)
-      · exact sound_handleIdleP hs i
+      · refine sound_seq2 (sound_readData v hs i) (fun d' h' => ?_)
+        unfold fastTrack
+        split
+        · exact sound_seq2 (sound_writeStep v h' i) (fun d'' h'' => sound_handleIdle h'' i)
+        · exact sound_handleIdle h' i
+      · split
+        · exact sound_seq2 (sound_closeOther hs i _) (fun d' h' => sound_handleIdle h' i)
+        · exact sound_handleIdleP hs i
 
 theorem sound_travSel (v : Variant) (rs : List Id) {d0 : Daemon} : ∀ (l : List Id) (d : Daemon), Steps d0 d →
     Sound d0 (travSel v rs l d)
